@@ -1553,7 +1553,7 @@ package redis
 //@ func newRedisProc
 //@   prop C08 C13 C14
 //@   alsoprop C11 : no-panic
-//@   requires stats != nil && svcCfg != nil
+//@   assume stats != nil && svcCfg != nil
 //@   modifies all
 //@   callpre newUpstream @the-upstream-shares-the-config-object-of-the-processor arg0 == p.cfg
 //@   assume @before:newUpstream (forall k int :: 0 <= k && k < len(svcHosts) ==> svcHosts[k] != nil) && forall a int, b int :: 0 <= a && a < b && b < len(svcHosts) ==> svcHosts[a].Addr != svcHosts[b].Addr
